@@ -46,6 +46,15 @@ add("C21", "TLC exhaustive on RandomCtx.tla (action properties) + behaviour repl
     "configurations of a JAX VI run; the harness runs a covering selection: bit-identical for repeats and fresh processes, 1e-8 across maps/JIT.",
     TRUST + "reference draws come from NumPy generators built from the seed identity alone.")
 
+add("C27", "TLC exhaustive on OptimizeKLConfig.tla (one and two calls) + TLC-predicted observables for a covering array replayed into the real driver + RNG trace validation",
+    "The driver's phases are specified over the option vector (OptimizeKLConfig.tla); TLC checks for every valid vector of the control-relevant options, "
+    "for one call and for two consecutive calls in one process, that the run completes, the RNG stack depth is restored, files are written only into the "
+    "call's own directory and only when one was given, and the returned list / callbacks follow the options; the transcription of the pinned defects is "
+    "refuted. A seeded pairwise (quick) / 3-wise plus random (thorough) covering array over all 19 options is handed to TLC, which predicts each vector's "
+    "observables; the real driver runs every vector back-to-back in one process and is compared. The driver's RNG push/pop/spawn/setState events are "
+    "recorded from outside and validated by RandomCtxTrace.tla.",
+    TRUST + "resume and initial_index are exercised with a preceding call that produced the state they continue.")
+
 
 def main():
     props = [json.loads(l) for l in open(os.path.join(HERE, "properties.jsonl"))]
